@@ -96,7 +96,7 @@ func checkC11(c C11Case, env *Env) *Violation {
 				excludedIn(env)
 				continue
 			}
-			if gate("c05-bracket-quote") && kfBracketQuote(f.Text, o.Name.Off) {
+			if (gate("c05-bracket-quote") && kfBracketQuote(f.Text, o.Name.Off)) || (gate("c05-glued-bracket") && kfGluedBracket(f.Text, o.Name.Off)) {
 				excludedIn(env)
 				continue
 			}
